@@ -60,7 +60,12 @@ impl<'a> RecIn<'a> {
 			self.ev_overflow = true;
 			return;
 		}
+		// the recorder's own bookkeeping must not show up in the allocator ledger
+		let was = crate::ledger::pause_if_on();
 		self.ev.push((c, n));
+		if was {
+			crate::ledger::resume();
+		}
 	}
 	pub fn events_json(&self) -> Value {
 		Value::Array(self.ev.iter().map(|(c, n)| json!([c, crate::reg::digits(*n as u128, 8)])).collect())
@@ -79,6 +84,7 @@ impl<'a> Input for RecIn<'a> {
 		}
 		into.copy_from_slice(&self.data[self.pos..self.pos + n]);
 		self.pos += n;
+		crate::ledger::POS.store(self.pos as u64, std::sync::atomic::Ordering::Relaxed);
 		if n > 0 {
 			self.push(EV_RD, n as u64);
 		}
@@ -86,6 +92,7 @@ impl<'a> Input for RecIn<'a> {
 	}
 	fn descend_ref(&mut self) -> Result<(), Error> {
 		self.depth += 1;
+		crate::ledger::DEPTH.store(self.depth, std::sync::atomic::Ordering::Relaxed);
 		if self.depth > self.dmax {
 			self.dmax = self.depth;
 		}
@@ -94,6 +101,7 @@ impl<'a> Input for RecIn<'a> {
 	}
 	fn ascend_ref(&mut self) {
 		self.depth -= 1;
+		crate::ledger::DEPTH.store(self.depth, std::sync::atomic::Ordering::Relaxed);
 		if self.depth < 0 {
 			self.underflow = true;
 		}
